@@ -24,9 +24,12 @@ func init() {
 // c19Script builds a script rich in hash literals, functions and constants.
 func c19Script(r *rand.Rand) (string, map[string]interface{}) {
 	var b strings.Builder
-	nf := r.Intn(4)
+	nf := r.Intn(6)
+	// constant expressions the optimizer folds, refuses to fold, or fails on: what one
+	// function contains must not change how the others are compiled
+	consts := []string{"2 * 3", "1 / 0", "1 % 0", "7 - 9", "65000 + 600", "2 ** 70", "3.5 * 2", "10 / 4", "1 == 1", "2 < 1", "\"a\" + \"b\"", "0 / 5", "6 / 3 / 0", "a * 1"}
 	for f := 0; f < nf; f++ {
-		fmt.Fprintf(&b, "function fn%d(a, b) { local q; q = {\"f%d\": a, \"z\": b, %d: \"n\"}; foreach k, v1 in q { t(k, v1); } return string(q) + \"%d\"; } ", f, f, r.Intn(50), r.Intn(1000))
+		fmt.Fprintf(&b, "function fn%d(a, b) { local q; if (a == 12345) { q = %s; if (%s) { q = %s; } } q = {\"f%d\": a, \"z\": b, %d: \"n\"}; foreach k, v1 in q { t(k, v1); } return string(q) + \"%d\"; } ", f, consts[r.Intn(len(consts))], []string{"true", "false", "1 == 2", "b"}[r.Intn(4)], consts[r.Intn(len(consts))], f, r.Intn(50), r.Intn(1000))
 	}
 	nh := 1 + r.Intn(3)
 	for h := 0; h < nh; h++ {
